@@ -1747,6 +1747,8 @@ impl<'a> Gen<'a> {
             9 => {
                 let mut cs = self.update_prefix(&mut env);
                 let read = Self::scalar_env(&env);
+                // (entities bound by the prefix; what the statement creates itself is never read)
+                let prefix_env = env.clone();
                 // sometimes the clauses also work on what a leading CREATE / MERGE of the same
                 // statement made
                 match self.t.weighted(&[60, 25, 15]) {
@@ -1763,6 +1765,10 @@ impl<'a> Gen<'a> {
                 }
                 let n = 2 + self.t.draw(2);
                 let before = cs.len();
+                // half of these statements may read properties of the entities they update: a
+                // later clause then reads what an earlier clause wrote (reads inside the
+                // writing clause are recognised by the reference and not decided)
+                let read = if self.t.chance(50) { prefix_env } else { read };
                 for _ in 0..n {
                     if self.t.chance(50) {
                         let k = 1 + self.t.draw(2);
